@@ -32,7 +32,7 @@ ASSUMPTIONS = ['thread switches at statement starts, lock operations and raw I/O
 REQUIRED_COUNTERS = ('schedules', 'context_switches', 'reader_transactions_checked', 'transactions_overlapping_a_commit', 'ok_commits',
                      'locations_parked', 'step_orders')
 
-KINDS = ['file', 'file', 'mapping', 'demo', 'demo-file', 'file+packer']
+KINDS = ['file', 'file', 'mapping', 'demo', 'demo-file', 'file+packer', 'demo-based']
 
 
 def shards(tier, seed):
@@ -196,6 +196,7 @@ def run_shard(params, which=None):
             sh.case(None)
             continue
         sh.count('schedules')
+        sh.count('wall_clock_watchdog_reruns', out.get('watchdog_reruns', 0))
         sh.count('context_switches', out['switches'])
         sh.count('scheduling_decisions', out['decisions'])
         sh.count('reader_transactions_checked', out['reader_txns'])
@@ -204,6 +205,8 @@ def run_shard(params, which=None):
         sh.count('conflicts_raised', out['conflicts'])
         sh.count('commits_failed_after_the_storage_voted', out.get('vote_failures', 0))
         sh.count('undo_commits_in_worlds', out.get('undos', 0))
+        sh.count('historical_connection_transactions_checked', out.get('historical_txns', 0))
+        sh.count('historical_connections_refused_as_in_the_future', out.get('historical_refused', 0))
         if out.get('stalled_clock'):
             sh.count('worlds_under_a_stalled_clock')
         for p in out['pack']:
